@@ -11,7 +11,7 @@ PROPS["C11"] = {
                    "before the edited value and after its region unchanged -- with all pointer walks and erase/insert arguments in range.  All C11 units are BOUNDED (sources of 5-8 bytes quick, "
                    "8-12 thorough; <= 3 records / line tokens; keys/values of 2-4 bytes; full byte domain); clean_string's 'no non-whitespace byte is lost' is additionally a size-generic proof "
                    "(c16_clean_loop).  Five genuine defects these units found are fixed in /repo (9a373f6, ed1af1d, baa5fd2, de7492b, and 05f5a53); one is a known finding (YAML fences, c11_update_yaml_S8).",
-    "slice": "writer.c: meta_new, meta_set_value, meta_free, label_from_string, clean_string, my_strndup; mmd.c: strip_line_tokens_from_metadata, mmd_engine_metavalue_for_key, mmd_engine_metadata_keys, mmd_engine_update_metavalue_for_key; stack.c: stack_push, stack_peek_index",
+    "slice": "writer.c: meta_new, meta_set_value, meta_free, label_from_string, clean_string, my_strndup; mmd.c: strip_line_tokens_from_metadata, mmd_engine_metavalue_for_key, mmd_engine_metadata_keys, mmd_engine_update_metavalue_for_key; stack.c: stack_push, stack_peek_index; mmd_assign_line_type (total; LINE_META only with metadata allowed, not in compatibility mode, plain text first, no URL, scanner accepts)",
     "not_reached": "that has-metadata's answer and end offset delimit exactly the block (of the line classifier only 'a blank line ends metadata recognition' is under contract: c11_blank_line_ends_meta), and that the line tokens / key lengths are what LINES_WF and the scanner contract say (tokenizer, re2c scanners, lemon parser: out of reach, DESIGN section 2); "
                    "the default arm of strip_line_tokens_from_metadata (scan_meta_line on other line types); escaped line breaks (backslash before a line ending) in values: safety and UTF-8 only; "
                    "'reads back as the new value' after an update is decided at the level of the text produced, not by re-parsing; the complete-document <meta>/<title> output (writers).",
